@@ -159,3 +159,11 @@ Theorem C07_rgb_sent_is_same_colour : forall c : color4 Q,
     nearest_clamped 0 65535 (c3 c) (c3 (canonical_color_Q RGB c)).
 Proof. exact rgb_sent_is_same_colour. Qed.
 Print Assumptions C07_rgb_sent_is_same_colour.
+
+(* (d) [Q] whatever the register contents: an rgb colour with no component above zero (zero or negative
+   percentages) is sent as black -- colorsys alone would divide by its largest component, zero (D62) *)
+Theorem C07_rgb_nothing_positive_is_black : forall c : color4 Q,
+  (py_max_Q (py_max_Q (c0 c / (100 # 1)) (c1 c / (100 # 1))) (c2 c / (100 # 1)) == 0)%Q ->
+  c0 (canonical_color_Q RGB c) = 0 /\ c1 (canonical_color_Q RGB c) = 0 /\ c2 (canonical_color_Q RGB c) = 0.
+Proof. exact rgb_nothing_positive_is_black. Qed.
+Print Assumptions C07_rgb_nothing_positive_is_black.
